@@ -74,7 +74,7 @@ def build_tools():
 
 
 def gen_facts():
-    env = dict(GOENV, VERIF_HELPERS_DIR=helpers_dir(), VERIF_REPO=REPO)
+    env = dict(GOENV, VERIF_HELPERS_DIR=helpers_dir(), VERIF_REPO=REPO, VERIF_ROLES=os.path.join(VERIF, "tools", "implsrv", "roles.json"))
     gdir = os.path.join(LEAN, "GontainerModel", "Generated")
     rc, out = sh([os.path.join(CACHE, "implsrv"), "facts", gdir], env=env)
     if rc != 0:
@@ -257,7 +257,7 @@ class Proc:
 
 
 def impl():
-    return Proc([os.path.join(CACHE, "implsrv"), "serve"], env=dict(os.environ, NO_COLOR="1"))
+    return Proc([os.path.join(CACHE, "implsrv"), "serve"], env=dict(os.environ, NO_COLOR="1", VERIF_ROLES=os.path.join(VERIF, "tools", "implsrv", "roles.json")))
 
 
 def model():
